@@ -68,7 +68,7 @@ P = {
             "Renaming onto a sibling's name is not generated (not covered by the statement)."),
     "C20": ("round-trip PBT through both CLIs with Python's csv module as reference", "4 C20",
             "Generated CSV grids are converted by csv2numbers main() and exported by cat-numbers main() in-process and compared cell by cell.",
-            "Python's csv module defines well-formed CSV; numeric = float() accepts after removing commas and is finite."),
+            "Python's csv module defines well-formed CSV; numeric = float() accepts it (commas only as thousands separators) and it is finite."),
 }
 
 checks, na = [], []
